@@ -617,7 +617,7 @@ def ovec_random(rng, n, maxops=60, lagbias=False):
 OBS_REDUCED = ["set(11)", "set_if_not_eq(1)", "set_if_not_eq(10)", "set_if_hash_not_eq(1)", "set_if_hash_not_eq(10)",
                "update_if(11,0)", "update_if(11,1)", "take", "subscribe", "subscribe_reset", "poll(0)", "poll(1)",
                "next_now(0)", "reset(0)", "sclone(0)", "sdrop(0)", "clone", "drop_owner", "downgrade", "upgrade",
-               "counts", "into_shared"]
+               "counts", "into_shared", "get", "drop_weak", "clone_weak"]
 
 
 def obs_exhaustive(maxlen, heads=("unique", "shared", "guard"), prefixes=("", "subscribe ; poll(0) ; "), counts=True):
@@ -661,7 +661,7 @@ def obs_random(rng, n, heads=("unique", "shared", "guard"), minlen=10, maxlen=40
                     if o == "sdrop":
                         subs[k] = False
             elif r < 0.97:
-                o = rng.choice(("clone", "drop_owner", "downgrade", "upgrade", "drop_weak", "into_shared", "counts", "counts"))
+                o = rng.choice(("clone", "drop_owner", "downgrade", "upgrade", "drop_weak", "clone_weak", "into_shared", "counts", "counts"))
                 if o == "drop_owner" and owners == 1 and rng.random() < 0.6:
                     o = "counts"       # keep most histories alive for a while
                 ops.append(o)
@@ -675,6 +675,8 @@ def obs_random(rng, n, heads=("unique", "shared", "guard"), minlen=10, maxlen=40
                     owners += 1
                 elif o == "drop_weak" and weaks > 0:
                     weaks -= 1
+                elif o == "clone_weak" and weaks > 0:
+                    weaks += 1
                 elif o == "into_shared" and not shared and owners > 0:
                     shared = True
             else:
